@@ -47,6 +47,9 @@ class StreamError(Exception):
 def _codec(ctx, direction, s, enc, errors):
     # str.encode() (UTF-8): an uninterpreted total function from str to bytes
     if direction == 'encode':
+        if s.kind == 'bytes':
+            # resp.text holding a bytes object (tolerated by render_body): bytes have no encode()
+            ctx.raise_py(AttributeError, "'bytes' object has no attribute 'encode'")
         return mk_str(UTF8(s.t), 'bytes')
     from pyvc.core import Unreached
 
@@ -54,6 +57,8 @@ def _codec(ctx, direction, s, enc, errors):
 
 
 def _enc(text):
+    if isinstance(text, bytes) or (isinstance(text, SStr) and text.kind == 'bytes'):
+        return text  # resp.text = b'...' is sent as it is
     if isinstance(text, SStr):
         return mk_str(UTF8(text.t), 'bytes')
     return text.encode()
@@ -90,9 +95,12 @@ class ReadStream:
         self.reads += 1
         if self.closes:
             self.read_after_close = True
-        k = v.choose(3, 'stream-read')
+        # outcomes of one read: end of stream, a chunk, failure; an async file-like may also hand back None ("no data yet": the ASGI tail sends b'')
+        k = v.choose(4 if self.asgi else 3, 'stream-read')
         if k == 2:
             v.ctx.raise_py(StreamError, 'read failed')
+        if k == 3:
+            return Ready(None)
         data = b'' if k == 0 else v.bytes('chunk')
         if k == 1 and not v.concrete:
             v.assume(Len(data) > 0)
@@ -143,9 +151,11 @@ def mk_resp(v, cls, asgi, statuses):
         import http
 
         status = getattr(http.HTTPStatus, status.rsplit('.', 1)[1])
-    text = v.str('text') if v.choose(2, 'text?') else None
+    tk = v.choose(3, 'text?')  # 0: not set, 1: a str, 2: a bytes object (render_body passes it through)
+    text = None if tk == 0 else (v.str('text') if tk == 1 else v.bytes('text_bytes'))
     data = v.bytes('data') if v.choose(2, 'data?') else None
-    sk = v.choose(4, 'stream-kind')
+    # 4: a file-like object without close() -- only the ASGI tail asks hasattr(stream, 'close') (WSGI: CloseableStreamIterator.close, own harness)
+    sk = v.choose(5 if asgi else 4, 'stream-kind')
     stream = None
     if sk == 1:
         stream = ReadStream(v, asgi)
@@ -153,6 +163,8 @@ def mk_resp(v, cls, asgi, statuses):
         stream = IterStream(v, asgi, True)
     elif sk == 3:
         stream = IterStream(v, asgi, False)
+    elif sk == 4:
+        stream = ReadStream(v, asgi, False)
     headers = {}
     preset_cl = v.choose(2, 'preset-content-length?')
     if preset_cl:
@@ -160,21 +172,27 @@ def mk_resp(v, cls, asgi, statuses):
     preset_ct = v.choose(2, 'preset-content-type?')
     if preset_ct:
         headers['content-type'] = 'text/x-preset'
+    # the app option default_media_type is an arbitrary (non-empty) media type, not falcon's DEFAULT_MEDIA_TYPE constant
     opts = _RespOpts()
+    opts.default_media_type = v.str('default_media_type')
+    v.assume(Len(opts.default_media_type) > 0)
     # media: an opaque document rendered by the handler the registry resolves (C11 / C12 contracts): the handler returns arbitrary bytes
-    has_media = v.choose(2, 'media?')
+    # 0: no media; 1: media assigned, not rendered yet; 2: media assigned and already rendered earlier in the request (a hook / middleware
+    #    called render_body): the rendering cache holds the bytes
+    has_media = v.choose(3, 'media?')
     media, rendered, handlers = None, None, None
     if has_media:
         media = _MediaDoc()
         rendered = v.bytes('rendered_media')
         handlers = _Handlers(v, asgi, media, rendered)
         opts.media_handlers = handlers
-    fields = dict(status=status, text=text, _data=data, _media=media, _media_rendered=v.real('falcon.response:_UNSET') if has_media else None,
+    fields = dict(status=status, text=text, _data=data, _media=media,
+                  _media_rendered=None if not has_media else (v.real('falcon.response:_UNSET') if has_media == 1 else rendered),
                   stream=stream, _headers=headers, _extra_headers=None,
                   _cookies=None, options=opts, complete=False, _sse=None, _registered_callbacks=None)
     resp = v.obj(cls, **fields)
     info = dict(status=status, text=text, data=data, stream=stream, preset_cl=preset_cl, preset_ct=preset_ct, stream_kind=sk, media=media,
-                rendered=rendered, handlers=handlers)
+                rendered=rendered, handlers=handlers, media_state=has_media, default_media_type=opts.default_media_type, options=opts)
     return resp, info
 
 
@@ -222,7 +240,7 @@ class _Handlers:
 
 
 class _RespOpts:
-    default_media_type = 'application/json'
+    default_media_type = 'application/json'  # overwritten per instance in mk_resp (an arbitrary media type)
     media_handlers = None
     secure_cookies_by_default = True
 
@@ -268,10 +286,23 @@ def mk_app(v, target, cls, asgi, statuses, method):
             # C04 contract: handled; the handler may rewrite the response, which is out of scope here -- end the path
             v.ctx.done()
 
-    app = v.obj(target, _request_type=_Factory(req), _response_type=_Factory(resp), req_options=None, resp_options=_RespOpts(),
+    # a custom response class (a subclass that does not override render_body): the ASGI tail then awaits resp.render_body() instead of its inlined copy
+    info['standard_response_type'] = (v.choose(2, 'custom-response-type?') == 0) if asgi else True
+    # the response was created with options=app.resp_options: one options object
+    app = v.obj(target, _request_type=_Factory(req), _response_type=_Factory(resp), req_options=None, resp_options=info['options'],
                 _middleware=((), (), ()), _independent_middleware=True, _get_responder=GetResponder(), _handle_exception=HandleException(),
-                _standard_response_type=True)
+                _standard_response_type=info['standard_response_type'])
     return app, req, resp, info
+
+
+def _ct_clauses(v, info, hd, media_type=None):
+    """A Content-Type the framework supplies is the configured default media type; one the responder set is kept."""
+    if info['preset_ct']:
+        v.check('explicit-content-type-is-kept', hd.get('content-type') == 'text/x-preset')
+    else:
+        got = hd['content-type'] if 'content-type' in hd else media_type
+        if got is not None:
+            v.check('framework-supplied-content-type-is-the-configured-default-media-type', _same(got, info['default_media_type']))
 
 
 def expected_body(info):
@@ -349,15 +380,14 @@ def wsgi_tail(v):
         v.check(_typeless_clause(info), ('content-type' in hd) == bool(info['preset_ct']))
     else:
         v.check('every-other-response-has-a-content-type', 'content-type' in hd)
-    if info['preset_ct']:
-        v.check('explicit-content-type-is-kept', hd.get('content-type') == 'text/x-preset')
+    _ct_clauses(v, info, hd)
     _media_clauses(v, info)
     v.cover('returned')
 
 
 def _typeless_clause(info):
-    # a 204 / 304 whose (unsent) body would be the rendered media document is its own clause: a recorded finding there cannot hide any other case
-    if info.get('media') is not None and info['text'] is None and info['data'] is None and not info['preset_ct']:
+    # a 204 / 304 whose (unsent) body would be the media document rendered NOW is its own clause: a recorded finding there cannot hide any other case
+    if info.get('media_state') == 1 and info['text'] is None and info['data'] is None and not info['preset_ct']:
         return '204-304-with-rendered-media-get-no-framework-content-type'
     return '204-304-get-no-framework-content-type'
 
@@ -371,11 +401,17 @@ def _media_clauses(v, info):
     if info['text'] is not None or info['data'] is not None:
         v.check('media-not-serialized-when-text-or-data-is-set', len(h.serialized) == 0 and len(h.resolved) == 0)
         return
+    if info['media_state'] == 2:
+        # rendered earlier in this request: the cached bytes are the body (checked by the precedence clause), nothing is serialized again
+        v.check('already-rendered-media-is-not-serialized-again', len(h.serialized) == 0 and len(h.resolved) == 0)
+        v.cover('media-from-the-rendering-cache')
+        return
     v.check('media-serialized-exactly-once', len(h.serialized) == 1 and len(h.resolved) == 1)
     if len(h.serialized) == 1 and len(h.resolved) == 1:
-        want = 'text/x-preset' if info['preset_ct'] else 'application/json'
-        v.check('media-handler-resolved-for-the-response-content-type', h.resolved[0] == (want, 'application/json'))
-        v.check('media-handler-receives-the-document', h.serialized[0][0] is info['media'] and h.serialized[0][1] in (None, want))
+        default = info['default_media_type']
+        want = 'text/x-preset' if info['preset_ct'] else default
+        v.check('media-handler-resolved-for-the-response-content-type', And(_same(h.resolved[0][0], want), _same(h.resolved[0][1], default)))
+        v.check('media-handler-receives-the-document', h.serialized[0][0] is info['media'] and (h.serialized[0][1] is None or _same(h.serialized[0][1], want)))
     v.cover('media-rendered')
 
 
@@ -396,9 +432,10 @@ def _int_str(n):
 
 
 for _m in ('GET', 'HEAD'):
-    for _t in (0, 1):
-        harness(PROP, WSGI + '.__call__', name='wsgi_tail[%s,text=%d]' % (_m, _t), inline=W_INLINE, setup=_wsgi_setup,
-                fix={'method': 0 if _m == 'GET' else 1, 'text?': _t})(wsgi_tail)
+    for _t in (0, 1, 2):
+        for _fw in (0, 1):
+            harness(PROP, WSGI + '.__call__', name='wsgi_tail[%s,text=%d,file_wrapper=%d]' % (_m, _t, _fw), inline=W_INLINE, setup=_wsgi_setup,
+                    fix={'method': 0 if _m == 'GET' else 1, 'text?': _t, 'wsgi.file_wrapper?': _fw})(wsgi_tail)
 
 
 @harness(PROP, 'falcon.app_helpers:CloseableStreamIterator.__next__')
@@ -445,7 +482,7 @@ def closeable_close(v):
 
 # --- ASGI -----------------------------------------------------------------------------------
 
-A_INLINE = ['falcon.asgi.app:_validate_asgi_scope']
+A_INLINE = ['falcon.asgi.app:_validate_asgi_scope', ARESP + '.render_body']
 
 
 class SendMonitor:
@@ -470,6 +507,8 @@ class SendMonitor:
             self.start = event
         else:
             v.check('body-events-only-after-start', typ == 'http.response.body' and self.state == 'STARTED')
+            # stated at the event (not on the collected list): events sent inside a cut streaming loop are seen here only
+            v.check('every-body-event-carries-a-byte-string', _is_bytes(event.get('body', b'')))
             more = event.get('more_body', False)
             self.body_events.append(event)
             if not more:
@@ -567,6 +606,7 @@ def asgi_tail(v):
         v.cover('typeless')
     else:
         v.check('every-other-response-has-a-content-type', media_type is not None or 'content-type' in hd)
+    _ct_clauses(v, info, hd, media_type)
     _media_clauses(v, info)
     v.cover('returned')
 
@@ -575,9 +615,13 @@ def _concrete_true(x):
     return x is True
 
 
+def _is_bytes(x):
+    return isinstance(x, bytes) or (isinstance(x, SStr) and x.kind == 'bytes')
+
+
 for _m in (0, 1):
-    for _t in (0, 1):
-        for _sk in (0, 1, 2, 3):
+    for _t in (0, 1, 2):
+        for _sk in (0, 1, 2, 3, 4):
             harness(PROP, ASGI + '.__call__', name='asgi_tail[%s,text=%d,stream=%d]' % ('GET' if _m == 0 else 'HEAD', _t, _sk), inline=A_INLINE,
                     setup=_asgi_setup, fix={'method': _m, 'text?': _t, 'stream-kind': _sk, 'status': 0})(asgi_tail)
 
@@ -587,11 +631,20 @@ ASSUMPTIONS = [
     'WSGI: the server calls close() on the returned iterable (PEP 3333); falcon cannot enforce it',
     'the request-processing half is trivial here (C03/C04 cover it); an error handler rewriting the response after a rendering failure ends the path',
     'WSGI statuses are the representatives %r (status lines, ints, http.HTTPStatus, a custom reason phrase, an unknown code); ASGI status codes are symbolic 100..999' % (WSGI_STATUSES,),
+    'the app option default_media_type is an arbitrary NON-EMPTY str; resp.options and app.resp_options are one object (App.__call__ creates the response with options=self.resp_options)',
+    'a media handler returns bytes (BaseHandler.serialize contract, C12); a handler returning None ("no body") is not explored',
+    'custom response class on ASGI (_standard_response_type False) = a subclass that does not override render_body: the real asgi Response.render_body runs from its source',
+    'inputs left at one value because they belong to the request half, which is trivial here (C03 / C04 / C06): resp.complete False, empty middleware stacks with '
+    '_independent_middleware True (both stacks are empty, the flag selects between two empty loops), req_options None, request method GET / HEAD only (the tail '
+    'compares with "HEAD" only), the ASGI scope (http 1.1, spec 2.1) and the single http.request event handed to the request',
+    'resp._registered_callbacks is None (scheduling background callbacks happens after the last event and sends nothing); the stream block size handed to read() is not checked',
+    'an explicitly set Content-Type is the concrete value "text/x-preset"; an explicitly set Content-Length is an arbitrary str',
 ]
 NOT_DECIDED = [
     'SSE emission branch (asyncio task watching for disconnect) -- resp._sse is None in these harnesses',
     'what a media handler writes: the rendered document is arbitrary bytes returned by a handler stub (C11 resolves, C12 serializes)',
-    'header list construction _asgi_headers/_wsgi_headers with cookies (C15)',
+    'header list construction _asgi_headers/_wsgi_headers with cookies (C15): resp._cookies and resp._extra_headers are None here although the quantifier names them '
+    '(C15 proves the emitted list for every jar / raw-line state; the tails pass it on unchanged)',
 ]
 TRUSTED = ['monitors StartResponse / SendMonitor and stream stubs in contracts/C05_response.py']
 
@@ -627,6 +680,21 @@ KILLS = [
     ('falcon/app_helpers.py', "        if data == b'':\n            raise StopIteration\n", "        if data == b'':\n            self.close()\n            raise StopIteration\n",
      'stream-closed-exactly-once-over-the-life-of-the-iterator'),
     ('falcon/app_helpers.py', "        try:\n            self._stream.close()\n        except (AttributeError, TypeError):\n            pass", "        pass", 'closes-the-stream-exactly-once'),
+    # --- inputs that used to be fixed in the harness (audit of constants the code reads) ---
+    # the WSGI tail takes falcon's constant instead of the configured default media type (invisible while the option stub held 'application/json')
+    (_APP, "        default_media_type: Optional[str] = self.resp_options.default_media_type\n", "        default_media_type: Optional[str] = constants.DEFAULT_MEDIA_TYPE\n",
+     'framework-supplied-content-type-is-the-configured-default-media-type'),
+    # the copy of render_body inlined in the ASGI tail ignores the rendering cache (needs media rendered earlier in the request)
+    (_AAPP, "                        if resp._media_rendered is _UNSET:\n", "                        if True:\n", 'already-rendered-media-is-not-serialized-again'),
+    # custom response class on ASGI: an empty rendering result replaces "no body" (a stream is then never sent)
+    (_AAPP, "                data = await resp.render_body()\n", "                data = await resp.render_body() or b''\n", 'asgi.app:App.__call__#'),
+    # resp.text holding bytes is dropped by the ASGI tail (needs text = b'...')
+    (_AAPP, "                        data = text  # type: ignore[assignment]\n", "                        data = None\n", 'body-follows-precedence-text-data-media-stream'),
+    # an async file-like handing back None: the event body is no byte string (needs the None outcome of read())
+    (_AAPP, "                                    'body': data or b'',\n", "                                    'body': data,\n", 'every-body-event-carries-a-byte-string'),
+    # a file-like stream without close(): the ASGI tail calls close() unconditionally (needs a stream with read() and no close())
+    (_AAPP, "                finally:\n                    if hasattr(stream, 'close'):\n                        await stream.close()\n            else:",
+     "                finally:\n                    await stream.close()\n            else:", 'only-server-or-stream-failures-escape'),
 ]
 HARMLESS = [
     (_APP, "        body: Iterable[bytes] = []\n        length: Optional[int] = 0\n", "        length: Optional[int] = 0\n        body: Iterable[bytes] = []\n"),
